@@ -218,6 +218,27 @@ def with_refs(doc, rng):
             if isinstance(rs, dict) and rng.random() < 0.7:
                 rs[rng.choice(["default", "200", "404", "default"])] = {"$ref": "#/responses/" + rng.choice(["Rec", "Any", "Plain", "Blank", "BlankPlain"])}
                 used = True
+    # chains: a reference object may be designated by a reference itself - a member of another parameters list, a fragment kept
+    # under a vendor extension - and the chain ends at a real parameter or response
+    import re
+    frag = d.setdefault("x-fragments", {})
+    frag["payload"] = {"$ref": "#/parameters/" + rng.choice(["BodyRec", "Q"])}
+    frag["answer"] = {"$ref": "#/responses/" + rng.choice(["Rec", "Plain"])}
+    for p, item in (d.get("paths") or {}).items():
+        if p.startswith("x-") or not isinstance(item, dict) or "$ref" in item or not re.fullmatch(r"[/A-Za-z0-9_.-]*", p):
+            continue
+        for m in ("get", "put", "post", "delete", "options", "head", "patch"):
+            op = item.get(m)
+            if not isinstance(op, dict):
+                continue
+            ps = op.get("parameters")
+            if isinstance(ps, list) and len(ps) == 1 and "$ref" in ps[0] and "parameters" not in item and rng.random() < 0.5:
+                item["parameters"] = [{"$ref": "#/paths/" + p.replace("~", "~0").replace("/", "~1") + "/" + m + "/parameters/0"}]
+            elif not ps and rng.random() < 0.4:
+                op["parameters"] = [{"$ref": "#/x-fragments/payload"}]
+            rs = op.get("responses")
+            if isinstance(rs, dict) and rng.random() < 0.3:
+                rs["default"] = {"$ref": "#/x-fragments/answer"}
     return d if used else None
 
 
